@@ -7,6 +7,7 @@ import DM.Drv.Dec
 import DM.Drv.C17
 import DM.Drv.RS
 import DM.Spec.Build
+import DM.Drv.Api
 open DM.Drv
 
 def dispatch (args : List String) : String :=
@@ -32,6 +33,9 @@ def dispatch (args : List String) : String :=
   | some r => r
   | none =>
   match rsOp args with
+  | some r => r
+  | none =>
+  match apiOp args with
   | some r => r
   | none => "bad-op"
 
